@@ -155,6 +155,39 @@ class Arg(Case):
         return {"screened": np.array([0], dtype=object), "blk": Overlap.construct_array_contraction(a, b)}
 
 
+class NoTol(Case):
+    """no tolerance means no screening: overlap_integral(basis) with its default arguments is the unscreened
+    assembly, exactly (a zeroed block counts however small its true entries are)"""
+
+    prop = "C20"
+    canary_scale = "Ae0"
+    query_timeout = 60000
+
+    def inputs(self, mk):
+        p = self.params
+        return dict(specs=[shell_spec(mk, "ABCD"[i], l, K, M) for i, (l, K, M) in enumerate(zip(p["ls"], p["Ks"], p["Ms"]))])
+
+    def code(self, I, mk):
+        from gbasis.integrals.overlap import overlap_integral
+
+        return {"S": overlap_integral(cm.basis_from(mk, I["specs"], self.params["types"]))}
+
+    def ref(self, I, ops, mk):
+        from gbasis.integrals.overlap import Overlap
+
+        basis = cm.basis_from(mk, I["specs"], self.params["types"])
+        ov = Overlap(basis)
+        t = self.params["types"]
+        if set(t) == {"c"}:
+            return {"S": ov.construct_array_cartesian(tol_screen=None)}
+        if set(t) == {"s"}:
+            return {"S": ov.construct_array_spherical(tol_screen=None)}
+        return {"S": ov.construct_array_mix([cm.LETTER[x] for x in t], tol_screen=None)}
+
+    def replay_compare(self, label, idx, a, b):
+        return a != b
+
+
 class Matrix(Case):
     """overlap_integral(basis, tol_screen=tol [, transform]) == unscreened matrix with exactly the blocks beyond the
     documented cutoff set to zero (zeros of the block's shape), through cartesian / spherical / mixed / lincomb assembly"""
@@ -297,6 +330,8 @@ def cases(tier, seed=0):
     for Ka, Kb in [(1, 1), (2, 1), (1, 2), (2, 2)] + ([(3, 2), (3, 3)] if tier == "thorough" else []):
         out.append(Cutoff(la=0, lb=1, Ka=Ka, Kb=Kb))
     out.append(Cutoff(la=2, lb=3, Ka=2, Kb=1))
+    out.append(Cutoff(la=1, lb=0, Ka=3, Kb=1))
+    out.append(Cutoff(la=0, lb=0, Ka=1, Kb=4))
     out.append(Monotone(Ka=1, Kb=1))
     out.append(Monotone(Ka=2, Kb=1))
     for arg in ("none", "true", "false"):
@@ -307,6 +342,8 @@ def cases(tier, seed=0):
     out.append(Matrix(ls=[0, 1], types="cc", Ks=[1, 1], Ms=[1, 1], nt=2))
     out.append(Matrix(ls=[0, 0, 1], types="ccc", Ks=[1, 1, 1], Ms=[1, 1, 1]))
     out.append(Conservative(Ka=1, Kb=1))
+    out.append(NoTol(ls=[1, 1], types="cc", Ks=[1, 1], Ms=[1, 1]))
+    out.append(NoTol(ls=[0, 2], types="cs", Ks=[2, 1], Ms=[1, 1]))
     if tier == "thorough":
         out.append(Matrix(ls=[2, 1], types="sc", Ks=[1, 2], Ms=[2, 1]))
         out.append(Matrix(ls=[1, 0, 2], types="csc", Ks=[1, 1, 1], Ms=[1, 2, 1]))
@@ -319,7 +356,7 @@ def cases(tier, seed=0):
 def main(tier="quick", seed=0, only=None):
     cs = cm.parse_only(cases(tier, seed), only)
     bounds = {
-        "cutoff": "shell pairs with K <= 2 (3 thorough) primitives each (smallest exponent = path splits over the comparisons of the real min()), "
+        "cutoff": "shell pairs with K <= 2 primitives each plus (3,1) and (1,4) (thorough: (3,2), (3,3)) (smallest exponent = path splits over the comparisons of the real min()), "
                   "symbolic centres and exponents, symbolic tolerance in (0, 1); None and bool arguments",
         "matrices": "2-3 shells (4 thorough), cartesian / spherical / mixed / transformed; every feasible combination of screened / kept pairs is a path",
         "conservative": "s-s pairs with K = 1 (K = 2 on one side in thorough)",
